@@ -98,7 +98,8 @@ def plan(ctx):
     shards = [('doc', PROFILES[i % len(PROFILES)], ctx.pick(400, 12000), i) for i in range(16)]
     shards += [('doc', 'flat', ctx.pick(12, 300), 16), ('doc', 'flat', ctx.pick(12, 300), 17)]   # three-digit line numbers
     L = ctx.pick(11, 14)
-    return [('shard_lines', [('lines', L, i, 16) for i in range(16)]), ('shard_docs', shards)]
+    big = [('big', size) for size in ctx.pick((9000, 20000, 70000), (9000, 20000, 70000, 140000))] + [('twins', n) for n in (1100, 2100, 4200)]
+    return [('shard_lines', [('lines', L, i, 16) for i in range(16)]), ('shard_docs', shards), ('shard_big', big)]
 
 
 def shard_lines(ctx, shard):
@@ -132,6 +133,31 @@ def shard_lines(ctx, shard):
     return res
 
 
+def big_doc(kind, n):
+    if kind == 'big':
+        return D.big_source(n)
+    # the same long paragraph (one text leaf of >= n characters) under two headings, and a third one that differs
+    para = ('lorem ipsum dolor sit amet 42 ' * (n // 30 + 1))[:n]
+    return '\\section{A}\n' + para + '\n\\section{B}\n' + para + '\n\\section{C}\n' + para[:-1] + 'x' + '\n\\emph{' + para + '}\n'
+
+
+def shard_big(ctx, shard):
+    """Documents of 9 K .. 70 K characters (offsets beyond any block size) and twin text leaves of >= 1 K characters."""
+    kind, n = shard
+    H.import_repo()
+    res = H.Result()
+    src = big_doc(kind, n)
+    case = {'src': '%s(%d)' % (kind, n), 'sub': 'big', 'big': [kind, n]}
+    try:
+        labels = check_doc(None, src, case, res)
+    except H.Violation as v:
+        v.case['src'] = '%s(%d)' % (kind, n)
+        res.violations.append(v.record())
+    else:
+        res.case((kind, n), True, sample={'kind': kind, 'size': len(src)}, classes=['big:' + kind, 'big:size>=%d' % (len(src) // 8192 * 8192)])
+    return res
+
+
 def shard_docs(ctx, shard):
     _, profile, n, idx = shard
     H.import_repo()
@@ -142,6 +168,9 @@ def shard_docs(ctx, shard):
 
 
 def replay(case):
+    if case.get('big'):
+        check_doc(None, big_doc(case['big'][0], int(case['big'][1])), dict(case), None)
+        return
     if case.get('sub') == 'line-map':
         from TexSoup import TexSoup
         check_positions_map(case['src'], TexSoup(case['src']), dict(case))
